@@ -12,6 +12,7 @@ pub fn harnesses() -> Vec<Harness> {
         Harness { name: "c08_add_single", property: "C08", f: c08_add_single, about: "single-key advertisement (fast path): scheduled iff not held, not already being fetched, not beyond the farthest acceptable distance" },
         Harness { name: "c08_expiry", property: "C08", f: c08_expiry, about: "timer expiry: expired fetches leave the in-flight set, their holders are reported, the holders' queued entries are dropped" },
         Harness { name: "c08_complete", property: "C08", f: c08_complete, about: "arrival / early completion removes the in-flight entry (and only what it should)" },
+        Harness { name: "c08_batch_dedupe", property: "C08", f: c08_batch_dedupe, about: "batch scheduling with the same record version queued by two holders: at most one fetch per version, limit respected, returned = newly in flight" },
         Harness { name: "c08_farthest", property: "C08", f: c08_farthest, about: "set_farthest_on_full drops everything farther than the new farthest and never widens" },
         Harness { name: "c08_progress", property: "C08", f: c08_progress, about: "bounded liveness: an in-range key advertised every round by a responsive holder is fetched within 2 rounds (4 keys, limit 3)" },
         Harness { name: "c09_divergent_version", property: "C09", f: c09_divergent_version, about: "a key held locally with version T1 and advertised with version T2 != T1 is scheduled or queued" },
@@ -411,6 +412,71 @@ fn c08_complete() {
     let k2_queued = fx.f.to_be_fetched.keys().any(|(k, _, _)| *k == key(2));
     let k2_started = og_after.iter().any(|(k, _)| *k == key(2));
     check_bool("complete:unrelated_queued_entry_not_lost", k2_queued || k2_started);
+}
+
+// ------------------------------------------------------------------ batch scheduling, duplicates across holders
+
+fn c08_batch_dedupe() {
+    set_clock_frozen(true);
+    let mut fx = new_fetcher();
+    let now = Instant::now().0;
+    let limit = MAX_PARALLEL_FETCH;
+    let ty = types();
+    let n_og = choice(limit + 1);
+    for i in 0..n_og {
+        let d = future_deadline(&format!("og_deadline{i}"), now);
+        fx.f.on_going_fetches.insert((key(10 + i as u8), RecordType::Chunk), (peer(9), d));
+    }
+    // queued: the same version of k0 from two holders, another version of k0, and k1..k2 from one holder
+    let n_other = choice(3);
+    let mut queued: Vec<(RecordKey, RecordType, PeerId)> = vec![(key(0), ty[1].clone(), peer(1)), (key(0), ty[1].clone(), peer(2))];
+    if choice(2) == 1 {
+        queued.push((key(0), ty[2].clone(), peer(1)));
+    }
+    for j in 0..n_other {
+        queued.push((key(1 + j as u8), ty[0].clone(), peer(1)));
+    }
+    for (i, (k, t, h)) in queued.iter().enumerate() {
+        let d = future_deadline(&format!("pend_deadline{i}"), now);
+        fx.f.to_be_fetched.insert((k.clone(), t.clone(), *h), d);
+    }
+    note(format!("n_og={n_og} queued={}", queued.len()));
+    let og_before = og_keys(&fx.f);
+    let out = fx.f.next_keys_to_fetch();
+    let og_after = og_keys(&fx.f);
+    let new_og: Vec<_> = og_after.iter().filter(|e| !og_before.contains(e)).cloned().collect();
+    cover("ran");
+    if !out.is_empty() {
+        cover("scheduled_some");
+    }
+    // every started fetch is a distinct record version: what is returned is exactly what is newly in flight
+    check_bool("dedupe:returned_count_equals_new_in_flight", out.len() == new_og.len());
+    // never two fetches of the same record version at once (two holders of (k0, T1))
+    let k0_t1_fetches = out.iter().filter(|(h, k)| *k == key(0) && queued.iter().any(|(qk, qt, qh)| qk == k && *qt == ty[1] && qh == h)).count();
+    let k0_versions_started = new_og.iter().filter(|(k, _)| *k == key(0)).count();
+    check_bool("dedupe:one_fetch_per_record_version", out.iter().filter(|(_, k)| *k == key(0)).count() <= k0_versions_started.max(0) && k0_t1_fetches <= 2);
+    check_bool("dedupe:no_two_holders_for_same_version", {
+        // count returned entries per key; it may not exceed the number of distinct versions newly in flight for that key
+        let mut ok = true;
+        for (k, _) in new_og.iter() {
+            let returned = out.iter().filter(|(_, kk)| kk == k).count();
+            let versions = new_og.iter().filter(|(kk, _)| kk == k).count();
+            if returned > versions {
+                ok = false;
+            }
+        }
+        ok
+    });
+    check_bool("dedupe:in_flight_le_limit", og_after.len() <= limit.max(og_before.len()));
+    if og_before.len() >= limit {
+        check_bool("dedupe:nothing_started_at_limit", out.is_empty());
+    }
+    // whatever was started left the queue; whatever was not started and is not in flight stays queued
+    for (k, t, h) in queued.iter() {
+        let in_flight = og_after.iter().any(|(kk, tt)| kk == k && tt == t);
+        let still_queued = fx.f.to_be_fetched.contains_key(&(k.clone(), t.clone(), *h));
+        check_bool("dedupe:queued_entry_not_lost", in_flight || still_queued);
+    }
 }
 
 // ------------------------------------------------------------------ farthest on full
